@@ -69,6 +69,13 @@ class C01(Prop):
                     if "[" in c and c.endswith("]"):
                         out.append({"stream": "n0eval", "tag": "n0eval", "input": {"s": c[c.index("[") + 1:-1]}})
                 out.append({"stream": "tok", "tag": "tok", "input": {"s": xp}})
+            # the index evaluator and the step splitter on their own: several digits, sign runs, sums, junk
+            for _ in range(3):
+                e = rng.choice(["", "-", "+", "--", "last()-", "last()+", "1+", "2-", " "]) + rng.choice(
+                    ["0", "7", "10", "12", "007", "105", "last()", "1+10", "20-9", "x", "1.5", "", "1 0", "new()"])
+                out.append({"stream": "n0eval", "tag": "n0eval:direct", "input": {"s": e}})
+                nm = rng.choice(["a", "line-item", "ns:tag", "$r", "2024", "0", "-1", "", "x.y", "a b", "@x"])
+                out.append({"stream": "sni", "tag": "sni:direct", "input": {"s": rng.choice([nm, nm + "[" + e + "]", nm + "[k=" + e + "]", nm + " [ " + e + " ]"])}})
         self._exh = None
         if tier == "thorough":
             # exhaustive small scope: every tree with <= 5 nodes (2 keys, 2 leaf values, lists <= 3 items),
